@@ -43,5 +43,5 @@ def run(ctx):
     if traces:
         ctx.count("c09:migration:runs-with-10-or-more-in-flight-at-switch", n10)
         ctx.oblige("coverage", f"migration: the active path changes while >= 10 ack-eliciting packets are in flight in at least a third of the runs ({n10} of {len(traces)}), "
-                   f"a left path reports again in at least a quarter ({back}), and packets are acknowledged across paths before such a report in at least 4 ({cross})",
-                   3 * n10 >= len(traces) and 4 * back >= len(traces) and cross >= 4, f"{n10}/{back}/{cross} of {len(traces)}")
+                   f"a left path reports again in at least a quarter ({back}), and packets are acknowledged across paths before such a report in at least 3 ({cross})",
+                   3 * n10 >= len(traces) and 4 * back >= len(traces) and cross >= 3, f"{n10}/{back}/{cross} of {len(traces)}")
